@@ -73,6 +73,10 @@ def run_mode(spec, parallel, PIDS):
             s['parallel_steps'] = bool(parallel and spec.get('parallel_steps'))
             e = sched.build(s, emitter={'type': 'timeseries'})
             calls = s['calls']
+            if spec.get('poison'):
+                # a value that cannot be sent to a worker sits in a variable a parallel process reads
+                import threading
+                e.state.get_path(('blob',)).value = threading.Lock()
         else:
             s = json.loads(json.dumps(spec['spec']))
             s['parallel_cells'] = bool(parallel)
@@ -88,6 +92,8 @@ def run_mode(spec, parallel, PIDS):
                 e.update(iv)
             else:
                 e.run_for(iv, force_complete=bool(force))
+        if spec.get('poison'):
+            e.state.get_path(('blob',)).value = 0
         out['rows'] = jsonable(e.emitter.get_data())
         out['final'] = jsonable(plain_values(e.state.get_value()))
         out['published'] = jsonable({'processes': structure(e.processes, Process), 'steps': structure(e.steps, Process),
